@@ -229,7 +229,18 @@ func init() {
 			"after every commit, per token: genesis holdings + locks of successful block messages = holdings + slashed + unlock queue + delivery queue + amounts of complete-unlock system txs delivered; all amounts >= 0; each unlock queues <= requested and <= holding before it. " +
 			"Non-trivial = every committed block; distinct = (tokens seen, slashed tokens, unlock-queue keys, delivery-queue length).",
 		Assume: []string{"amounts <= 2^96 (documented input bound)", "delivered = system transactions of payloads whose block message succeeded"},
-		Cases:  func(tier string) int { return map[string]int{"quick": 48, "thorough": 320}[tier] },
-		Run:    func(c *vc.Ctx, i int) { c11History(c, i) },
+		Cases:  func(tier string) int { return map[string]int{"quick": 48 + 8, "thorough": 320 + 60}[tier] },
+		Run: func(c *vc.Ctx, i int) {
+			if base := map[string]int{"quick": 48, "thorough": 320}[c.Tier]; i >= base {
+				// the same monitor under the combined traffic of all modules
+				combinedHistory(c, i-base, "c11x", c.Pick(60, 150), nil, func(h *lockHist) (func(), func()) {
+					mon := newC11Mon(h)
+					h.crashFn = func(cr *world.ErrCrash) { c.Inconclusive("FinalizeBlock failed (reported under C13): %v", cr) }
+					return mon.afterBlock, nil
+				})
+				return
+			}
+			c11History(c, i)
+		},
 	})
 }
